@@ -97,10 +97,14 @@ Fixpoint apply_updates (st : mstore) (m : Z) (mon : monitor) (ids : list Z) : rr
   | i :: r =>
     match kv_get mkey_eqb st (KUpd m i) with
     | Some (VUpd u) =>
-      match update_monitor mon u with
-      | ROk mon' => apply_updates st m mon' r
-      | e => e
-      end
+      (* updates live under independent keys: a later one may have become durable before an earlier
+         one; stop at the first gap (nothing beyond it was reported persisted) *)
+      if negb (uid u =? LEGACY_ID) && negb (uid u =? mid mon + 1) then ROk mon
+      else
+        match update_monitor mon u with
+        | ROk mon' => apply_updates st m mon' r
+        | e => e
+        end
     | _ => RErr
     end
   end.
@@ -180,6 +184,30 @@ Definition empty_state : mstate := {| durable := []; limbo := [] |}.
     selected by [sel] had completed. *)
 Definition async_crash_state (maxp : Z) (cs : list call) (sel : list bool) : mstate :=
   apply_sops mkey_eqb empty_state (select (issued maxp empty_state cs) sel).
+
+(** The asynchronous persister, call by call.  [persist_new_channel] / the update write are issued
+    synchronously; the in-range clean-up of a consolidation is issued only after its monitor write
+    completed.  For each call: nothing became durable ([SelNone]), or its write did, followed by any
+    subset [rem] of its (lazy) removals ([SelWrite rem]).  Writes of different calls touch different
+    keys except the monitor key, whose writes take effect in issue order (a skipped earlier write is
+    simply overwritten by a later one, which the KVStore contract allows). *)
+Inductive csel := SelNone | SelWrite (rem : list bool).
+Definition sel_ops (ops : list mop) (x : csel) : list mop :=
+  match x, ops with
+  | SelWrite rem, w :: rs => w :: select rs rem
+  | _, _ => []
+  end.
+Fixpoint async_run (maxp : Z) (s : mstate) (cs : list call) (sels : list csel) : mstate :=
+  match cs, sels with
+  | c :: r, x :: xs => async_run maxp (apply_sops mkey_eqb s (sel_ops (call_ops maxp s c) x)) r xs
+  | _, _ => s
+  end.
+
+(** The in-memory monitors of a history (the monitor handed to each call). *)
+Definition next_mem (cur : monitor) (c : call) : monitor :=
+  match c with CUpdate _ (Some _) mon => mon | _ => cur end.
+Fixpoint mems (cur : monitor) (cs : list call) : list monitor :=
+  cur :: match cs with [] => [] | c :: r => mems (next_mem cur c) r end.
 
 End MUP.
 
